@@ -44,7 +44,12 @@ def known_hash_b_sliced(spec, v):
     """Open finding: under hash_method='b' a permutation of equal-sized labels
     shares the entry, but the sliced labels are stored by NAME and applied to
     whatever carries that name in the new query."""
-    return spec.get("hash_method") == "b" and bool(spec.get("slicing")) and "[hash_method='b']" in v
+    # (entries with sliced labels come from slicing_opts or from a caller-sliced
+    # tree handed to update_from_tree)
+    has_sliced_entries = bool(spec.get("slicing")) or any(
+        op.get("op") == "update_from_tree" and op.get("seed", 1) % 3 == 0 for op in spec.get("ops", [])
+    )
+    return spec.get("hash_method") == "b" and has_sliced_entries and "[hash_method='b']" in v
 
 
 KNOWN = {"hash_b_sliced_labels_by_name": known_hash_b_sliced}
